@@ -29,6 +29,7 @@ ASSUMPTIONS = [
 ]
 EXHAUSTIVE = {'quick': False, 'thorough': False}
 PYOPT_KINDS = ('programs',)
+CLOCALE_KINDS = ('programs',)
 KNOWN_KEYS = {'keepfile-name-reused'}
 CORE_API = [b'print', b'spr', b'_init', b'_update', b'_update60', b'_draw', b'btn', b'btnp', b'cls', b'map', b'sfx', b'music', b'pset',
             b'pget', b'rnd', b'flr', b'add', b'del', b'min', b'max', b'mid', b'sin', b'cos', b'abs', b'?', b'sget', b'mget', b'rectfill']
